@@ -2,7 +2,7 @@
    Only statements closed by [exact]; the lemmas live in Proofs/Paging.v.
    Constants (defaultMaxMetadataBytes, filter names) are Generated/GC15.v,
    re-translated from registry/remote on every run. *)
-From Oras Require Import Base.Prelude Generated.GC15 Model.Paging Proofs.Paging.
+From Oras Require Import Base.Prelude Generated.GC15 Model.Paging Model.PagingUrl Proofs.Paging Proofs.PagingUrl.
 From Coq Require Import Permutation Sorted.
 
 (* parseLink returns exactly the text between '<' and the first '>' whatever follows *)
@@ -497,4 +497,65 @@ Example C15_example_limit_listing :
   let t := loop (reg_serve KTags CLast (fun _ p => p) (fun _ => true) ex_L 1 ds ex_render (fun _ => [])) ex_resolve
                 (fun _ => false) (ex_cfg KTags) 9 0 0 (mkUrl (b "/v2/r/tags/list") []) [] in
   t_out t = ErrDecode /\ map (map fst) (t_pages t) = [[b "a"]] /\ length (t_reqs t) = 2%nat.
+Proof. vm_compute. repeat split. Qed.
+
+(* ---------- the string level: net/url, setQueryParams, escaping (Model/PagingUrl.v) ---------- *)
+
+(* url.QueryUnescape undoes url.QueryEscape on every byte string *)
+Theorem C15_escape_roundtrip :
+  forall s, Forall byte_ok s -> query_unescape (query_escape s) = Some s.
+Proof. exact escape_roundtrip. Qed.
+Print Assumptions C15_escape_roundtrip.
+
+(* setQueryParams: every parameter that is not set is forwarded byte for byte and in order
+   (also one that url.ParseQuery would reject), the set ones follow *)
+Theorem C15_set_query_params_verbatim :
+  forall raw kvs, Forall kv_ok kvs ->
+    raw_params (set_query_params raw kvs) =
+    filter (fun p => not_set kvs (param_key p)) (raw_params raw) ++ map new_param kvs.
+Proof. exact set_query_params_verbatim. Qed.
+Print Assumptions C15_set_query_params_verbatim.
+
+(* ... and a registry reading the result finds the other parameters as before and the new values *)
+Theorem C15_set_query_params_read :
+  forall raw kvs, Forall kv_ok kvs ->
+    parse_query_lenient (set_query_params raw kvs) =
+    filter (fun kv' => not_set kvs (fst kv')) (parse_query_lenient raw) ++ kvs.
+Proof. exact set_query_params_spec. Qed.
+Print Assumptions C15_set_query_params_read.
+
+(* the raw request the client sends refines the association-list request of Model/Paging.v:
+   whatever key a registry looks up, it reads what [mk_request] says *)
+Theorem C15_request_query_refines :
+  forall c p raw q last, Forall byte_ok last -> repr raw q ->
+    repr (request_query c raw last) (u_query (mk_request c (mkUrl p q) last)).
+Proof. exact request_query_refines. Qed.
+Print Assumptions C15_request_query_refines.
+
+(* net/url reference resolution (URL.Parse + ResolveReference as modelled) sends each of the
+   link forms </path?q>, <?q>, <http://host/path?q>, <//host/path?q> -- followed by anything
+   after '>' -- to the intended path and raw query; the next request is that path with n set *)
+Theorem C15_next_request_link_forms :
+  forall c base P segs Q t trailer hc ht,
+    link_form base P Q t ->
+    clean_path P segs -> forallb path_char P = true -> forallb query_char Q = true ->
+    s_host base = hc :: ht -> forallb host_char (s_host base) = true -> host_ok (s_host base) = true ->
+    link_ok t -> contains c_gt t = false ->
+    next_request c base (c_lt :: t ++ c_gt :: trailer) = NNext P (request_query c Q []).
+Proof. exact next_request_link_forms. Qed.
+Print Assumptions C15_next_request_link_forms.
+
+(* a clean path is a fixed point of net/url's dot-segment removal *)
+Theorem C15_resolve_path_clean :
+  forall P segs, clean_path P segs -> resolve_path P [] = P.
+Proof. exact resolve_path_clean. Qed.
+Print Assumptions C15_resolve_path_clean.
+
+Example C15_example_string_step :
+  let base := mkS (b "http") (b "reg.test") (b "/v2/repo/tags/list") (b "n=2&last=a") in
+  next_request (mkCfg KTags 2 0 []) base (b "<?last=b&tok=x;y>; rel=""next""")
+    = NNext (b "/v2/repo/tags/list") (b "last=b&tok=x;y&n=2") /\
+  next_request (mkCfg KTags 0 0 []) base (b "<../list/~p?token=p%3Bb>")
+    = NNext (b "/v2/repo/tags/list/~p") (b "token=p%3Bb") /\
+  first_query (mkCfg KTags 3 0 []) [] (b "a b/c") = b "n=3&last=a+b%2Fc".
 Proof. vm_compute. repeat split. Qed.
